@@ -800,6 +800,71 @@ static void s_sig_rs256(void) { sig_common(key("rsa"), P_rsa, "RS256", false, fa
 static void s_sig_ps256(void) { sig_common(key("rsa"), P_rsa, "PS256", false, false); }
 static void s_sig_infer(void) { sig_common(key("ec"), P_ec, NULL, false, false); }
 static void s_sig_multi(void) { sig_common(KS_multi, KS_multi_pub, NULL, false, false); }
+/* ONE template for every key of a set (the library copies it per key): every signature made must carry the
+ * template's header -- a copy that could not be made is a failure, not "no template" */
+static void
+s_sig_multi_tmpl(void)
+{
+    json_t *jws = json_pack("{s:o}", "payload", jose_b64_enc(PT, PTL));
+    json_t *sig = json_pack("{s:{s:s}}", "header", "kid", "shared");
+    snap(KS_multi, "jwk", true);
+    snap(sig, "sig", true);
+    BEGIN();
+    R.ok = jose_jws_sig(CFG, jws, sig, KS_multi);
+    END();
+    if (R.ok) {
+        json_t *a = json_object_get(jws, "signatures");
+        R.prod = shapes(jws);
+        if (json_array_size(a) != 2)
+            bad("%zu signatures instead of 2", json_array_size(a));
+        for (size_t i = 0; i < json_array_size(a); i++) {
+            const char *kid = json_string_value(json_object_get(json_object_get(json_array_get(a, i), "header"), "kid"));
+            if (!kid || strcmp(kid, "shared") != 0)
+                bad("signature %zu does not carry the template's header", i);
+        }
+        if (!jose_jws_ver(CFG, jws, NULL, KS_multi_pub, true))
+            bad("produced JWS does not verify");
+    }
+    RELEASE();
+    snaps_check();
+    json_decref(sig);
+    json_decref(jws);
+}
+
+static void
+s_enc_multi_tmpl(void)
+{
+    json_t *jwe = json_loads(TM_KWGCM, 0, NULL);
+    json_t *rcp = json_pack("{s:{s:s}}", "header", "kid", "shared");
+    json_t *ks = json_pack("[O,O]", key("kw"), key("kw"));
+    snap(ks, "jwk", true);
+    snap(rcp, "rcp", true);
+    BEGIN();
+    R.ok = jose_jwe_enc(CFG, jwe, rcp, ks, PT, PTL);
+    END();
+    if (R.ok) {
+        size_t l = 0;
+        json_t *a = json_object_get(jwe, "recipients");
+        R.prod = shapes(jwe);
+        if (json_array_size(a) != 2)
+            bad("%zu recipients instead of 2", json_array_size(a));
+        for (size_t i = 0; i < json_array_size(a); i++) {
+            const char *kid = json_string_value(json_object_get(json_object_get(json_array_get(a, i), "header"), "kid"));
+            if (!kid || strcmp(kid, "shared") != 0)
+                bad("recipient %zu does not carry the template's header", i);
+        }
+        void *pt = jose_jwe_dec(CFG, jwe, NULL, key("kw"), &l);
+        if (!pt || l != PTL || memcmp(pt, PT, l) != 0)
+            bad("produced JWE does not decrypt to the plaintext");
+        free(pt);
+    }
+    RELEASE();
+    snaps_check();
+    json_decref(ks);
+    json_decref(rcp);
+    json_decref(jwe);
+}
+
 static void s_sigio_hs256(void) { sig_common(key("oct"), key("oct"), "HS256", true, true); }
 static void s_sigio_es256(void) { sig_common(key("ec"), P_ec, "ES256", true, false); }
 
@@ -1464,7 +1529,8 @@ static const scen_t scens[] = {
     { "thp-ec", s_thp_ec }, { "thp-rsa", s_thp_rsa }, { "thp-oct", s_thp_oct }, { "thpbuf", s_thpbuf },
     { "eql", s_eql }, { "eql-neq", s_eql_neq }, { "exc", s_exc }, { "exc-ecmr", s_exc_ecmr },
     { "sig-hs256", s_sig_hs256 }, { "sig-es256", s_sig_es256 }, { "sig-rs256", s_sig_rs256 },
-    { "sig-ps256", s_sig_ps256 }, { "sig-infer", s_sig_infer }, { "sig-multi", s_sig_multi },
+    { "sig-ps256", s_sig_ps256 }, { "sig-infer", s_sig_infer }, { "sig-multi", s_sig_multi }, { "sig-multi-tmpl", s_sig_multi_tmpl },
+    { "enc-multi-tmpl", s_enc_multi_tmpl },
     { "sigio-hs256", s_sigio_hs256 }, { "sigio-es256", s_sigio_es256 },
     { "ver-hs256", s_ver_hs256 }, { "ver-hs256-bad", s_ver_hs256_bad }, { "ver-es256", s_ver_es256 },
     { "ver-es256-bad", s_ver_es256_bad }, { "ver-rs256", s_ver_rs256 }, { "ver-rs256-bad", s_ver_rs256_bad },
